@@ -339,6 +339,12 @@ func (w *Walker) walkAt(b, pred *ssa.BasicBlock, ps *pstate, from int) {
 					o.RetI = &iv
 				} else if iv, ok := ps.ints[t.Results[w.RetIdx]]; ok {
 					o.RetI = &iv
+				} else if c, ok := t.Results[w.RetIdx].(*ssa.Call); ok {
+					// the result of a same-module integer helper (threeWay(a < b, a > b)): evaluated
+					// with its parameters bound to the arguments in this path's context
+					if iv, ok := w.evalInt(c, ps); ok {
+						o.RetI = &iv
+					}
 				}
 			}
 			w.out = append(w.out, o)
@@ -467,6 +473,22 @@ func (w *Walker) evalBool(v ssa.Value, ps *pstate) Tri {
 		return tv
 	}
 	switch x := v.(type) {
+	case *ssa.Parameter:
+		// a boolean parameter of an inlined helper: the argument, evaluated in the caller's context
+		if w.parent != nil {
+			for i, p := range x.Parent().Params {
+				if p == x && i < len(w.argVals) {
+					saved := w.parent.cur
+					w.parent.cur = w.parentPs
+					r := w.parent.evalBool(w.argVals[i], w.parentPs)
+					w.parent.cur = saved
+					w.env.CurW = w
+					if r != U {
+						return r
+					}
+				}
+			}
+		}
 	case *ssa.Const:
 		if x.Value != nil && x.Value.Kind() == constant.Bool {
 			return tri(constant.BoolVal(x.Value))
